@@ -89,11 +89,11 @@ CHECKS = {
                 jobs=lambda t: J("ondemand", "prod-hsw", ["--prop", "C10"]) + J("ondemand", "asan-hsw", ["--prop", "C10"]) + J("ondemand", "prod-wsm", ["--prop", "C10"]) + J("ondemand", "prod-dyn", ["--prop", "C10"]) +
                 J("tsanrun", "tsan", ["--only", "TAo_ondemand_in_threads"], env={"TSAN_OPTIONS": "halt_on_error=1:exitcode=66:report_signal_unsafe=0"}, label="tsan/on-demand-in-threads"),
                 budget=dict(quick=300, thorough=3000),
-                rule="differential: for every valid text x pointer path, GetOnDemand succeeds <=> AtPointer on the fully parsed document resolves (and the reference lookup agrees); on success the slice lies inside the input and parses to the identical value, ParseOnDemand yields it; on failure error != 0, slice empty, ParseOnDemand errors and stays null. Evaluations count (text,path) pairs."),
+                rule="differential: for every valid text x pointer path, GetOnDemand succeeds <=> AtPointer on the fully parsed document resolves (and the reference lookup agrees); on success the slice lies inside the input and parses to the identical value, ParseOnDemand yields it; on failure error != 0, slice empty, ParseOnDemand errors and stays null; every path is also given as a JsonPointerView (identical outcome); a last job runs on-demand lookups through escaped keys from three threads under ThreadSanitizer. Evaluations count (text,path) pairs."),
     "C11": dict(level="exploration", engine="ondemand",
                 jobs=lambda t: J("ondemand", "asan-hsw", ["--prop", "C11"]) + J("ondemand", "prod-hsw", ["--prop", "C11"]) + J("ondemand", "prod-wsm", ["--prop", "C11"]) +
                 (J("ondemand", "asan-wsm", ["--prop", "C11"]) + J("ondemand", "prod-dyn", ["--prop", "C11"]) if t == "thorough" else []),
-                rule="every text (valid or not, incl. empty and every truncation) x path: GetOnDemand/ParseOnDemand on an exact-size heap block (ASan) and on a buffer ending on the last mapped byte / starting right after a PROT_NONE page (production build): no fault; success => slice is a sub-range of the input and offset <= len; failure => slice empty. Evaluations count (text,path,placement) calls; non-trivial: text of >= 2 bytes."),
+                rule="every text (valid or not, incl. empty and every truncation) x path: GetOnDemand/ParseOnDemand on an exact-size heap block (ASan) and on a buffer ending on the last mapped byte / starting right after a PROT_NONE page (production build): no fault; success => slice is a sub-range of the input and offset <= len; failure => slice empty; and with the input placed as a view in front of readable quotes / closers / backslashes / openers the outcome must be the one of the exact-size placement. Evaluations count (text,path,placement) calls; non-trivial: text of >= 2 bytes."),
     "C19": dict(level="exploration", engine="schemaenum", budget=dict(quick=180, thorough=3000),
                 jobs=lambda t: J("schemaenum", "prod-hsw", []) + J("schemaenum", "asan-hsw", [], fills=[0x06, 0x0c] if t == "quick" else FILLS_T),
                 rule="all pairs (existing document E, valid text T) of duplicate-free values up to a token budget, plus re-spaced texts and repeated application (E,T1,T2): result of ParseSchema read back through the accessors must equal merge(E,T) (E's key set and order at every level where both sides are non-empty objects, T's value elsewhere); no error; ASan-clean for pool and freeing allocators under several heap-fill bytes."),
@@ -116,7 +116,7 @@ CHECKS = {
                 J("serenum", "prod-dyn", ["--only", "T9_fenced_blocks"], label="prod-dyn/serialize-fenced-strings") +
                 (J("kernels", "asan-wsm", ["--prop", "C09"]) + J("kernels", "prod-dyn", ["--prop", "C09"], label="prod-dyn/dispatched") if t == "thorough" else []),
                 budget=dict(quick=300, thorough=3000),
-                rule="internal::Quote on every length 0..100 with every byte value at every position and two special bytes at all position pairs; output validated byte by byte (verbatim copies, correct escapes, length <= 6n+2); production build: source ending 0..64 bytes before an unmapped page with three different in-page tails (output must not depend on them), destination exactly 6n+35 bytes before an unmapped page; ASan: exact-size heap source and destination."),
+                rule="internal::Quote on every length 0..100 with every byte value at every position and two special bytes at all position pairs; output validated byte by byte (verbatim copies, correct escapes, length <= 6n+2); production build: source ending 0..64 bytes before an unmapped page with three different in-page tails (output must not depend on them), destination exactly 6n+35 bytes before an unmapped page; ASan: exact-size heap source and destination. Long strings (one special byte at every position up to 4097 bytes). Three further jobs serialise documents whose allocator places every block (copied strings own exactly len+1 bytes) directly in front of an inaccessible page."),
     "C14": dict(level="exploration", engine="kernels",
                 jobs=lambda t: J("kernels", "prod-hsw", ["--prop", "C14"]) + J("kernels", "asan-hsw", ["--prop", "C14"]) + J("kernels", "prod-wsm", ["--prop", "C14"]) + (J("kernels", "prod-dyn", ["--prop", "C14"]) if t == "thorough" else []),
                 rule="InlinedMemcmpEq == (memcmp==0) and sign(InlinedMemcmp)==sign(memcmp) for every length, every first-difference index, sign-sensitive byte pairs, a later opposite difference, both operands placed independently 0..40 bytes before an unmapped page / at every start offset mod 32; FindMember/HasMember with and without the lookup map agree with byte equality."),
@@ -133,11 +133,11 @@ CHECKS = {
                 jobs=lambda t: J("allocexplore", "asan-hsw", []) + J("allocexplore", "prod-hsw", []) +
                 J("allocexplore", "asan-hsw-cap128", ["--only", "A_adaptive_base,A_adaptive_chunk100,A_adaptive_userbuf64"], label="asan-hsw/max-chunk-capacity-128"),
                 budget=dict(quick=120, thorough=2400),
-                rule="explicit-state BFS over operation histories of the real pool allocator (8 configurations: simple/adaptive policy, tracking base, own base, user buffers of several sizes/alignments); every transition executed on the implementation and checked: 8-byte alignment, containment in one chunk, pairwise disjointness, contents intact, Realloc prefix and in-place growth, zero size -> null, Size()/Capacity() accounting, copies share one pool, chunks returned exactly once and only when the last copy dies, user buffer never freed or overrun."),
+                rule="explicit-state BFS over operation histories of the real pool allocator (8 configurations: simple/adaptive policy, tracking base, own base, user buffers of several sizes/alignments); every transition executed on the implementation and checked: 8-byte alignment, containment in one chunk, pairwise disjointness, contents intact, Realloc prefix and in-place growth, zero size -> null, Size()/Capacity() accounting, copies share one pool, chunks returned exactly once and only when the last copy dies, user buffer never freed or overrun. Further configurations: requests around 2^31 / 2^32 / 2^33 bytes, and a base allocator that refuses a chunk at any point of the history (null result accepted only then; the pool must stay consistent)."),
     "C12": dict(level="model_checking", engine="domexplore",
                 jobs=lambda t: J("domexplore", "prod-hsw", []) + J("domexplore", "asan-hsw", []) + J("domsweep", "asan-hsw", [], label="asan-hsw/size-sweep") + J("domsweep", "prod-hsw", [], label="prod-hsw/size-sweep"),
                 budget=dict(quick=150, thorough=3000),
-                rule="explicit-state BFS over mutation-API histories of a real document (pool allocator and ledger-tracking freeing allocator) against a plain-container model (vector of values / vector of pairs, RemoveMember moving the last member into the hole); after every transition Dump() equals the model serialisation, every accessor agrees, toggling the lookup map on objects with distinct keys changes nothing, the serialised text round-trips; every transition is executed on the implementation by replaying the history on fresh objects."),
+                rule="explicit-state BFS over mutation-API histories of a real document (pool allocator and ledger-tracking freeing allocator) against a plain-container model (vector of values / vector of pairs, RemoveMember moving the last member into the hole); after every transition Dump() equals the model serialisation, every accessor agrees, toggling the lookup map on objects with distinct keys changes nothing, the serialised text round-trips; every transition is executed on the implementation by replaying the history on fresh objects. Two further jobs (domsweep) sweep every container size x build history x map state x single operation."),
     "C13": dict(level="model_checking", engine="docexplore",
                 jobs=lambda t: J("docexplore", "asan-hsw", [], fills=[0x06] if t == "quick" else [0xbe, 0x06, 0x0c]) + J("domexplore", "asan-hsw", ["--only", "M_track_nestedmap"], label="asan-hsw/domexplore-track") +
                 J("domsweep", "asan-hsw", [], label="asan-hsw/size-sweep"),
